@@ -221,8 +221,9 @@ def run(ctx):
     long_cases = []
     for k, n in enumerate([65500, 65536, 65600, 131072 + 17, 200000][:3 if ctx.tier == "quick" else 5]):
         for q, sf in enumerate(sufs_long):
-            body = ("ab " + rng.choice(['\\"@en ', '^^<x> ', ' . # ', 'é'])) * (n // 8)
-            body = body[:n - 3] + rng.choice(['\\"@', 'x^^', ' .#'])
+            unit = "ab " + rng.choice(['\\"@en ', '^^<x> ', ' . # ', 'é'])       # whole units only: a cut inside an escape pair would end the literal early
+            body = unit * ((n - 3) // len(unit))
+            body += 'x' * (n - 3 - len(body)) + rng.choice(['\\"@', 'x^^', ' .#'])
             long_cases.append((('I', IRIS[(k + q) % len(IRIS)]), ('I', IRIS[q % 5]), ('L', body, sf)))
     ldoc = "\n".join(render(st, LAYOUTS[i % 2]) for i, st in enumerate(long_cases)) + "\n"
     lexp = [expected(st) for st in long_cases]
